@@ -55,9 +55,8 @@
 //! 2. boundary_stream.rs: the lookahead refill GET starts at `pos + 1` (drops one byte);
 //! 3. boundary_stream.rs: `search_from = chunk_in_range_len` (a terminator exactly at `end - 1` is missed, the
 //!    next line is read twice).
-//! All three are env-guarded in probes/combined-datasource-env-guarded.diff and run by probes/run-all.sh;
-//! verdicts in probes/log-all.txt (the run was still queued behind the machine-wide mutrun slots when this header
-//! was written).
+//! All three are env-guarded in probes/combined-datasource-env-guarded.diff and run by probes/run-all.sh
+//! (probes/log-all.txt): 1 → VIOLATION after 15 cases, 2 → VIOLATION after 4 cases, 3 → VIOLATION after 21 cases.
 use crate::chunkstore::ChunkStore;
 use crate::util::*;
 use bytes::Bytes;
